@@ -116,6 +116,12 @@ def perc2okta_kernel(ctx, rule='C18-R3'):
     if raises:
         r = raises[0]
         cls = r.value[1] if tag(r.value) == 'new' else None
+        # for arrays the refusal concerns every element: not all(in range), never not any(in range)
+        anys = [x for x in T.walk(r.guard) if tag(x) == 'call' and x[1] in (('g', 'numpy.any'), ('g', 'builtins.any'))]
+        negated_any = [x for x in T.walk(r.guard) if tag(x) == 'not' and x[1] in anys]
+        ctx.check(not negated_any, rule, f.qname, r.node, r.loc(),
+                  'the range refusal is "no element is in range" (not np.any(...)): an array with one percentage in [0, 100] '
+                  'and others outside is accepted', instance='perc2okta: every element must be in range')
         parts = k.evb(r.guard, (-K.INF, False, K.INF, False))
         want = [((-K.INF, False, F(0), False), True), ((F(0), True, F(100), True), False),
                 ((F(100), False, K.INF, False), True)]
